@@ -323,6 +323,8 @@ def C19(ck):
                               "through the table of signatures the harness's honest signers produced"]
     ck.add_model(vlib.mc("MC_Evidence", "MC_Evidence_replay.cfg"))
     ck.add_model(vlib.mc("MC_Evidence", "MC_Evidence_small.cfg" if ck.tier == "quick" else "MC_Evidence_full.cfg", timeout=3000))
+    # Apalache: Binding / NoForgery / TwoSignsTwoTokens as an inductive invariant for 3 keys x 7 algorithms x 4 claims-sets
+    ck.add_model(vlib.apalache_inductive("PsaEvidence", "EInit", "IndInv", "ENext", "ApaConstants"))
     if ck.tier != "quick":
         # the composition (claims + wire + dispatch + Evidence with real tokens): end-to-end Binding / NoForgery
         ck.add_model(vlib.mc("Psa", "MC_Psa.cfg", timeout=3500, workers=12))
